@@ -177,10 +177,56 @@ static Result run_one(long ridx, int scen, bool early, uint64_t freeze_at, int n
     return res;
 }
 
+// "A writer is delayed only by read handles that are still held": a handle taken while the writer already waits for the
+// earlier ones (after its switch) must not delay it. E holds a handle from before the modification; once the writer is
+// spinning, L takes a new handle and keeps it until the writer has finished; E releases; the writer must complete.
+static void late_holder_round(long ridx)
+{
+    vrf::Round R(ridx);
+    auto& rng = R.rng;
+    int hold_e = static_cast<int>(rng.below(4)), spins = static_cast<int>(rng.range(2, 5));
+    R.program("{\"scenario\":\"lr late holder\",\"writer_spins_before_late_handle\":" + std::to_string(spins) + ",\"hold\":" + std::to_string(hold_e) + "}");
+    lr_guarded<Cell, vrf::mutex_t> lr(false);
+    std::atomic<int> early_taken{0}, late_taken{0}, writer_done{0};
+    uint64_t y0 = vrf::yields_of(0);
+    R.spawn([&] {  // vthread 0: the writer
+        vrf::spin_until([&] { return early_taken.load(std::memory_order_relaxed) == 1; });
+        lr.modify([](Cell& c) {
+            Win w(c, true);
+            c.append_raw(7);
+        });
+        writer_done.store(1, std::memory_order_relaxed);
+    });
+    R.spawn([&] {  // E: early holder
+        auto h = lr.lock_shared();
+        Win w(*h, false);
+        early_taken.store(1, std::memory_order_relaxed);
+        vrf::spin_until([&] { return late_taken.load(std::memory_order_relaxed) == 1; });
+        for (int i = 0; i < hold_e; i++) vrf::hyield();
+        h->check("early");
+    });
+    R.spawn([&] {  // L: late holder, keeps its handle until the writer is through
+        vrf::spin_until([&] { return vrf::yields_of(0) >= y0 + static_cast<uint64_t>(spins); });  // the writer waits for E (second drain loop)
+        auto h = lr.lock_shared();
+        Win w(*h, false);
+        late_taken.store(1, std::memory_order_relaxed);
+        vrf::spin_until([&] { return writer_done.load(std::memory_order_relaxed) == 1; });
+        h->check("late");
+    });
+    R.run();
+    vrf::note(vrf::mixhash(0x1a7e, R.sched_sig ? R.sched_sig : static_cast<uint64_t>(ridx)), true);
+    vrf::count("late_holder_rounds");
+}
+
 int main(int argc, char** argv)
 {
     vrf::init(argc, argv, "C14");
-    if (vrf::cfg.engine != "serial") vrf::harness_error("C14 needs the serial engine (writer freezing is a scheduling policy)");
+    if (vrf::cfg.mode == "late") {
+        for (long r = 0; r < vrf::cfg.rounds; r++)
+            if (vrf::want_round(r)) late_holder_round(r);
+        vrf::finish();
+    }
+    if (vrf::cfg.engine != "serial") vrf::harness_error("C14 freeze mode needs the serial engine (writer freezing is a scheduling policy)");
     ReadStats rs;
     long ridx = 0;
     long reps = vrf::cfg.rounds;  // repetitions (reader scripts x schedules) per suspension point
